@@ -11,6 +11,9 @@ import VProofs.Lemmas.EvalCountWord
 import VProofs.Lemmas.EvalCountLine
 import VProofs.Lemmas.CrossFront
 import VProofs.Lemmas.EvalFloatBetween
+import VProofs.Lemmas.EvalI32
+import VProofs.Lemmas.EvalFmtDigits
+import VProofs.Lemmas.EvalFmtReport
 /-!
 # C20 — Command-line tools agree with the library, line by line
 
@@ -133,6 +136,40 @@ theorem C20_eval_line_wf (cfg : Cfg) (m : WModel) (hm : WFModel m) (ht : WFTags 
 example : EvalLineWF ⟨[B.N, B.W], [[none], [some ['x']], [none]], [B.W, B.W], [[none], [some ['x']], [none]]⟩ ∧
     wordCounts [⟨[B.N, B.W], [[none], [some ['x']], [none]], [B.W, B.W], [[none], [some ['x']], [none]]⟩] = (1, 3, 2) := by
   refine ⟨by unfold EvalLineWF; decide, by decide⟩
+
+/-! ### the counters are `i32` in the tool, `Nat` in the model: no counter can overflow -/
+
+/-- the number of characters that `evaluate` compares: per line one more than the number of boundary positions -/
+def evalChars (ls : List EvalLine) : Nat := (ls.map fun l => l.refB.length + 1).sum
+
+/-- `--metric char`: the four counters TOGETHER are at most the number of characters (no hypothesis on the lines), hence each
+counter and the two sums `n_tp + n_fp`, `n_tp + n_fn` that the tool forms are at most that number -/
+theorem C20_eval_char_counts_bounded (ls : List EvalLine) :
+    (charCounts ls).1 + (charCounts ls).2.1 + (charCounts ls).2.2.1 + (charCounts ls).2.2.2 ≤ evalChars ls ∧
+    (charCounts ls).1 ≤ evalChars ls ∧ (charCounts ls).2.1 ≤ evalChars ls ∧ (charCounts ls).2.2.1 ≤ evalChars ls ∧
+    (charCounts ls).2.2.2 ≤ evalChars ls ∧
+    (charCounts ls).1 + (charCounts ls).2.2.1 ≤ evalChars ls ∧ (charCounts ls).1 + (charCounts ls).2.2.2 ≤ evalChars ls := by
+  have h : _ ≤ evalChars ls := C20E.char_total ls
+  refine ⟨h, ?_, ?_, ?_, ?_, ?_, ?_⟩ <;> omega
+
+/-- `--metric word`: `n_cor`, `n_sys`, `n_ref` are at most the number of characters, and `n_cor ≤ n_sys`, `n_cor ≤ n_ref`
+(the hypotheses `num ≤ pDen`, `num ≤ rDen` of the theorems on the metrics) — for all lines, well-formed or not -/
+theorem C20_eval_word_counts_bounded (ls : List EvalLine) :
+    (wordCounts ls).1 ≤ evalChars ls ∧ (wordCounts ls).2.1 ≤ evalChars ls ∧ (wordCounts ls).2.2 ≤ evalChars ls ∧
+    (wordCounts ls).1 ≤ (wordCounts ls).2.1 ∧ (wordCounts ls).1 ≤ (wordCounts ls).2.2 :=
+  C20E.word_bound ls
+
+/-- hence with fewer than `2^31` characters in the evaluated corpus no `i32` counter of the tool, and neither of the sums
+`n_tp + n_fp`, `n_tp + n_fn`, overflows: the `Nat` counts of the model are the `i32` values of the tool, and the operands of
+the three divisions are below `2^31` -/
+theorem C20_eval_counts_i32 (ls : List EvalLine) (h : evalChars ls < 2 ^ 31) :
+    (charCounts ls).1 < 2 ^ 31 ∧ (charCounts ls).2.1 < 2 ^ 31 ∧ (charCounts ls).2.2.1 < 2 ^ 31 ∧
+    (charCounts ls).2.2.2 < 2 ^ 31 ∧
+    (charCounts ls).1 + (charCounts ls).2.2.1 < 2 ^ 31 ∧ (charCounts ls).1 + (charCounts ls).2.2.2 < 2 ^ 31 ∧
+    (wordCounts ls).1 < 2 ^ 31 ∧ (wordCounts ls).2.1 < 2 ^ 31 ∧ (wordCounts ls).2.2 < 2 ^ 31 := by
+  obtain ⟨_, c1, c2, c3, c4, c5, c6⟩ := C20_eval_char_counts_bounded ls
+  obtain ⟨w1, w2, w3, _, _⟩ := C20_eval_word_counts_bounded ls
+  refine ⟨?_, ?_, ?_, ?_, ?_, ?_, ?_, ?_, ?_⟩ <;> omega
 
 /-! ## `evaluate`: the three floating-point numbers it prints (`VModel/F64Arith.lean`: `evalMetrics num pDen rDen` is
 `(precision, recall, f1)` with `precision = num/pDen`, `recall = num/rDen`, `f1 = ((2.·precision)·recall) / (precision + recall)`
@@ -287,6 +324,51 @@ example :
   decide +kernel
 
 end C20FloatEx
+
+/-! ## the decimal text of evaluate's floats
+
+`VModel/F64Fmt.lean`: `f64Display` is Rust's `format!("{}", x)` for an `f64` (shortest digits that read back, nearest to the
+value, positional notation), `evalReportChar` / `evalReportWord` the complete output of the tool after counting;
+`decimalToF64 ds e` is the double nearest to `0.d₁…d_k × 10^e` (what `str::parse::<f64>` computes). -/
+
+/-- the printed digits identify the computed double exactly: for every finite non-zero double (magnitude `a` units of
+`2^-1074`) reading the digits and exponent of `format_shortest` back with correct rounding gives that double again -/
+theorem C20_eval_display_roundtrip (s : Bool) (a : Nat) (hd : F64.IsDouble (.fin s a)) (ha : 0 < a) :
+    decimalToF64 (f64ShortestDigits a).1 (f64ShortestDigits a).2 = .fin false a :=
+  FmtL.display_roundtrip a ha hd.1 hd.2
+
+/-- hence different finite doubles have different digits or exponents (on the magnitudes; the sign is printed separately) -/
+theorem C20_eval_display_injective (s t : Bool) (a b : Nat) (hx : F64.IsDouble (.fin s a)) (hy : F64.IsDouble (.fin t b))
+    (ha : 0 < a) (hb : 0 < b) (h : f64ShortestDigits a = f64ShortestDigits b) : a = b := by
+  have h1 := C20_eval_display_roundtrip s a hx ha
+  have h2 := C20_eval_display_roundtrip t b hy hb
+  rw [h, h2] at h1
+  exact (F64.fin.inj h1).2.symm
+
+/-- the texts that `evaluate` can print for a metric: `NaN`, `0`, `1`, or `0.` followed by zeros and at least one more digit,
+the last digit not `0` (never an exponent, never a sign, never `inf`) -/
+def UnitText (cs : List Char) : Prop :=
+  cs = ['N', 'a', 'N'] ∨ cs = ['0'] ∨ cs = ['1'] ∨
+    ∃ (z : Nat) (ds : List Nat) (last : Nat), cs = '0' :: '.' :: (List.replicate z '0' ++ ds.map digitChar) ∧
+      (∀ d ∈ ds, d < 10) ∧ ds.getLast? = some last ∧ last ≠ 0
+
+/-- the text of a double `x` with `0 ≤ x ≤ 1` (magnitude `a ≤ 2^1074` units, sign bit clear): `0` for zero, `1` for one,
+otherwise `0.` + zeros + the shortest digits, the last of which is not `0`; and NaN prints as `NaN` -/
+theorem C20_eval_display_shape (a : Nat) (hd : F64.IsDouble (.fin false a)) :
+    (a = 0 → f64Display (.fin false a) = ['0']) ∧ (a = F64.unit → f64Display (.fin false a) = ['1']) ∧
+    (0 < a → a < F64.unit → ∃ (z : Nat) (ds : List Nat) (last : Nat),
+      f64Display (.fin false a) = '0' :: '.' :: (List.replicate z '0' ++ ds.map digitChar) ∧
+        (∀ d ∈ ds, d < 10) ∧ ds.getLast? = some last ∧ last ≠ 0) ∧
+    f64Display .nan = ['N', 'a', 'N'] :=
+  FmtL.display_shape a hd
+
+/-- the three numbers that `evaluate` prints, for all `i32` counts with `num ≤ pDen`, `num ≤ rDen` (both metrics, see
+`C20_eval_word_counts_bounded`): each of `Precision`, `Recall`, `F1` is `NaN`, `0`, `1` or `0.d…d` with a non-zero last digit -/
+theorem C20_eval_report_shape (num pDen rDen : Nat) (hp : pDen < 2 ^ 31) (hr : rDen < 2 ^ 31)
+    (hnp : num ≤ pDen) (hnr : num ≤ rDen) :
+    UnitText (f64Display (evalMetrics num pDen rDen).1) ∧ UnitText (f64Display (evalMetrics num pDen rDen).2.1) ∧
+    UnitText (f64Display (evalMetrics num pDen rDen).2.2) :=
+  FmtL.report_shape num pDen rDen hp hr hnp hnr
 
 /-! ## the two front ends segment alike -/
 
